@@ -38,6 +38,8 @@ pub struct Case {
     pub seed: u64,
     pub storage_latency_ms: BTreeMap<u8, u64>,
     pub huge: bool,
+    /// per node index: mutating storage calls (by index) that fail, and how (nothing written / a prefix / a subset)
+    pub storage_faults: BTreeMap<usize, Vec<(u64, crate::store::Fault)>>,
 }
 
 pub struct BrokenRepairs;
@@ -129,7 +131,26 @@ impl Prop for BrokenRepairs {
                 storage_latency_ms.insert(*id, ms);
             }
         }
-        Case { nodes, repair_secs, n_ks, deaf, steps, repair, push, seed, storage_latency_ms, huge }
+        // storage failures at generated calls of generated nodes (since the seeded change `C01n`): a write that fails inside
+        // a repair exchange, inside a pushed message or inside a client operation
+        let mut storage_faults = BTreeMap::new();
+        for i in 0..n_nodes {
+            if src.chance(1, 3) {
+                let list: Vec<(u64, crate::store::Fault)> = (0..1 + src.below(3))
+                    .map(|_| {
+                        let at = src.below64(12);
+                        let f = match src.below(3) {
+                            0 => crate::store::Fault::FailBefore,
+                            1 => crate::store::Fault::Partial(src.below(3)),
+                            _ => crate::store::Fault::Subset(src.word()),
+                        };
+                        (at, f)
+                    })
+                    .collect();
+                storage_faults.insert(i, list);
+            }
+        }
+        Case { nodes, repair_secs, n_ks, deaf, steps, repair, push, seed, storage_latency_ms, huge, storage_faults }
     }
 
     fn run(&self, case: &Case) -> Outcome {
@@ -143,6 +164,7 @@ impl Prop for BrokenRepairs {
             "keyspaces": case.n_ks,
             "node_deaf_to_pushed_replication": case.deaf.map(|i| i + 1),
             "storage_latency_ms": case.storage_latency_ms,
+            "failing_storage_calls_per_node_index": case.storage_faults.iter().map(|(i, l)| (format!("node {}", i + 1), l.iter().map(|(at, f)| format!("call {at}: {:?}", f)).collect::<Vec<_>>())).collect::<BTreeMap<_, _>>(),
             "steps": case.steps.iter().map(|s| match s {
                 Step::Put { node, ks, first, n, stride, len, level } => json!({"put": {"first_id": first, "ids": n, "stride": stride}, "len": len, "at_node": node + 1, "ks": ks, "level": level_name(*level)}),
                 Step::Del { node, ks, first, n, stride, level } => json!({"del": {"first_id": first, "ids": n, "stride": stride}, "at_node": node + 1, "ks": ks, "level": level_name(*level)}),
@@ -162,7 +184,8 @@ impl Prop for BrokenRepairs {
          thirds of the cases one node is deaf to every pushed message (direct and batched), so it learns everything through repair; every \
          poll / get-state / FETCH message takes the next fate of a generated script: deliver, request lost, reply lost (the peer did the \
          work), duplicate, delay up to 5.2 s (beyond the poller's 5 s watchdog) — a failed fetch leaves an exchange half applied and its \
-         keyspace to be retried; then faults are cleared and 7 s + 3 repair intervals pass; oracle: as in part `cluster` (every node returns \
+         keyspace to be retried; on a third of the nodes 1-3 of the first twelve storage writes fail (nothing written, a prefix written, a subset written) \
+         wherever they fall: in a client operation, a pushed message or the writes of a repair exchange; then faults are cleared and 7 s + 3 repair intervals pass; oracle: as in part `cluster` (every node returns \
          exactly the LWW documents of the operations issued, nobody holds a version that nobody issued); non-trivial = a fetch or state \
          request failed and documents were fetched afterwards, or an exchange needed more than one fetch or carried more than 1 MB to a deaf node, or more than 10 keyspaces were repaired"
     }
@@ -221,8 +244,18 @@ async fn run(case: &Case, net: e3::Net) -> Outcome {
             n.deaf = vec![nodes[i].addr];
         }
     }
+    for (i, list) in &case.storage_faults {
+        let mut g = nodes[*i].store.inner.lock();
+        let base = g.mutating_calls;
+        for (at, f) in list {
+            g.faults.insert(base + at, *f);
+        }
+    }
     for s in &case.steps {
         run_step(&nodes, s).await;
+    }
+    for n in &nodes {
+        n.store.inner.lock().faults.clear();
     }
     {
         let mut n = net.borrow_mut();
@@ -261,6 +294,13 @@ async fn run(case: &Case, net: e3::Net) -> Outcome {
     }
     if case.deaf.is_some() {
         labels.push("one_node_deaf_to_pushes");
+    }
+    let failed_writes: u64 = nodes.iter().map(|n| n.store.inner.lock().injected).sum();
+    if failed_writes > 0 {
+        labels.push("a_storage_write_failed");
+    }
+    if failed_writes > 0 && case.deaf.map(|i| nodes[i].store.inner.lock().injected > 0).unwrap_or(false) {
+        labels.push("a_storage_write_of_the_deaf_node_failed");
     }
     if case.n_ks > 10 {
         labels.push("keyspaces>10");
